@@ -576,3 +576,86 @@ def C17(tier):
              "(barrier after every op: all threads inside the same function) alternate with permuted rounds; yields/sleeps injected between "
              "calls; every result compared with its sequential reference; TSan reports parsed per shard and de-duplicated by library entry "
              "points; distinct_nontrivial = distinct (op, op') pairs observed overlapping in one process (max over processes)" % total_ops)
+
+
+# --------------------------------------------------------------------------- C18
+OOM_KW = dict(extra_src=("wrap_alloc.c",), extra_ld=("-Wl,--wrap=malloc,--wrap=calloc,--wrap=realloc,--wrap=free", "-no-pie"))
+C18_FILES = ["varintDict.c", "varintPFOR.c", "varintFloat.c", "varintAdaptive.c", "varintBitmap.c"]
+
+
+def _alloc_sites_in_source():
+    import os
+    import re
+    sites = []
+    for f in C18_FILES:
+        path = os.path.join(core.REPO, "src", f)
+        try:
+            lines = open(path).read().splitlines()
+        except OSError:
+            continue
+        in_test = False
+        for i, l in enumerate(lines, 1):
+            if re.match(r"#ifdef VARINT_\w+_TEST", l):
+                in_test = True
+            if re.search(r"\b(malloc|calloc|realloc)\s*\(", l) and not l.strip().startswith(("/*", "*", "//")) and not in_test:
+                sites.append((f, i))
+    return sites
+
+
+def _resolve_sites(exe, addrs):
+    import subprocess
+    out = set()
+    if not addrs:
+        return out
+    alist = ["0x%x" % (int(a, 16) - 1) for a in sorted(addrs)]
+    p = subprocess.run(["addr2line", "-e", exe] + alist, stdout=subprocess.PIPE, text=True)
+    for line in p.stdout.splitlines():
+        m = __import__("re").match(r"(.*?):(\d+)", line)
+        if m:
+            out.add((__import__("os").path.basename(m.group(1)), int(m.group(2))))
+    return out
+
+
+def C18(tier):
+    c = Check("C18", tier, level="fault_enumeration")
+    variants = 266
+    reps = sz(tier, 3, 30)
+    count = per_shard(variants * reps)
+    h1 = c.spec("oom-asanR", "asanR", "drv_oom", "c18", count, build_kw=OOM_KW, timeout=3000)
+    h2 = c.spec("oom-asan", "asan", "drv_oom", "c18", count, build_kw=OOM_KW, timeout=3000)
+    h3 = c.spec("oom-rel", "rel", "drv_oom", "c18", count, build_kw=OOM_KW, timeout=3000)
+    c.go()
+    total = c.maxes.get("c18_scenario_variants", 0)
+    c.require("scenario_variants_enumerated", c.extra["cases_per_cfg"].get("rel", 0), total)
+    hit = set()
+    for h in (h1, h2, h3):
+        addrs = set()
+        for r in h.run.shards.values():
+            addrs |= r.sites
+        hit |= _resolve_sites(h.run.exe, addrs)
+    src_sites = _alloc_sites_in_source()
+    never = []
+    for f, ln in src_sites:
+        if not any(hf == f and abs(hl - ln) <= 3 for hf, hl in hit):
+            never.append("%s:%d" % (f, ln))
+    c.extra["allocation_sites_in_source"] = len(src_sites)
+    c.extra["allocation_sites_failed_at_least_once"] = len(src_sites) - len(never)
+    c.extra["allocation_sites_never_failed"] = never
+    c.extra["failed_sites_resolved"] = sorted("%s:%d" % x for x in hit if x[0] in C18_FILES)
+    c.require("allocation_sites_failed", len(src_sites) - len(never), int(0.9 * len(src_sites)),
+              "(of %d malloc/calloc/realloc call sites in the five anchored files)" % len(src_sites))
+    for s in ("varintDictBuild", "varintPFOREncode", "varintFloatEncode", "varintAdaptiveEncodeWith", "varintAdaptiveDecode", "varintBitmapAdd",
+              "varintBitmapRemove", "varintBitmapAddRange", "varintBitmapSetAlgebra", "varintBitmapClone", "varintBitmapDecode"):
+        c.require("faults." + s, c.stat("faults." + s), 6)
+    c.assumptions = ["exactly one allocation call (the k-th) fails per execution; later ones succeed",
+                     "accepted outcomes: the documented failure value with the object unchanged as a set, or a fully correct result; void "
+                     "mutators must leave a consistent set between old and old+added (old-removed and old)",
+                     "varintAdaptiveCountUnique / varintPFORComputeThreshold document a fallback value on allocation failure (count / zeroed meta), accepted"]
+    c.finish(c.stat("c18_faults_injected"), c.extra["per_cfg"].get("distinct_nontrivial@rel", 0),
+             "%d (allocating API x input variant) scenarios enumerated; for each, N = allocation calls in a fault-free run, then every "
+             "k = 1..N is failed in a forked child (exhaustive over failure position for these inputs) under ASan with and without NDEBUG "
+             "and the pinned flags; oracle: no crash, no block allocated during the call left live after cleanup, success only with "
+             "correct output, long-lived objects consistent and usable afterwards; inputs chosen to reach every allocation site "
+             "(bitmap at 4095/4096/4097 members, RUNS containers, array growth, >16 unique dictionary values, both CountUnique branches); "
+             "evaluations = faults injected; distinct = scenario variants x seeded repetitions on rel" % total,
+             extra_cov=dict(exhaustive_over_failure_position=True))
